@@ -145,8 +145,8 @@ class Ctx:
         for ch, r in results:
             self._account(r, module, "T")
             if r.timed_out or not r.ok:
-                raise Machinery("trace validator %s failed (timed_out=%s):\n%s" %
-                                (module, r.timed_out, r.stdout[-3000:]))
+                raise Machinery("trace validator %s failed (timed_out=%s):\n%s\n...\n%s" %
+                                (module, r.timed_out, r.error_text[:1500], r.stdout[-1500:]))
             done = r.tuple_prints("DONE")
             if not done or done[-1][1] != len(ch):
                 raise Machinery("trace validator %s did not reach every case: %s of %d\n%s" %
